@@ -135,6 +135,25 @@ func r3(variant int) scenario {
 	}
 }
 
+// R3c a conflicting retransmission while the OTHER requested sender stays silent for ever: the conflict itself must end
+// the receive (duplicate-message error blaming the retransmitting sender); nothing else will ever wake it up.
+func r3c(w *world) {
+	first := [][]byte{[]byte("2a"), {}, nil}[mcrt.Choose("first-payload", 3)]
+	w.net.Inject(2, w.me, wire("a", first))
+	w.net.Inject(2, w.me, wire("a", []byte("2A")))
+	done := 0
+	mcrt.GoNamed("recv-a", func() {
+		c := w.recv("recv-a", w.rt, bg, "", "a", nil, 2, 3)
+		if c.err == nil {
+			w.x.Failf("router/phantom", "R3c: a receive waiting for a sender that never sent returned success %s", fmtMap(c.got))
+		}
+		done++
+	})
+	join(&done, 1) // a receive that is never woken up leaves no enabled thread: reported as a deadlock
+	mcrt.Yield("drain", func() bool { return len(w.net.pending(w.me)) == 0 })
+	w.close()
+}
+
 // R3b duplicates deposited BEFORE the receive parks: a warm-up receive starts the reader, the harness waits until the
 // reader has taken everything, then the receive for "a" is issued: conflicting => must fail blaming the sender,
 // identical => must succeed.
@@ -321,6 +340,7 @@ func TestCheck(t *testing.T) {
 	sched("R3-dup-identical", 1, p3, r3(0), b, engine.Budget(q, th))
 	sched("R3-dup-conflicting", 1, p3, r3(1), b, engine.Budget(q, th))
 	sched("R3-dup-conflict-other-sender", 1, []sharing.ID{1, 2, 3, 4}, r3(2), b, engine.Budget(q, th))
+	sched("R3c-dup-conflicting-other-sender-silent", 1, p3, r3c, b, engine.Budget(q, th))
 	sched("R3b-dup-conflicting-before-recv", 1, p3, r3b(true), b, engine.Budget(q, th))
 	sched("R3b-dup-identical-before-recv", 1, p3, r3b(false), b, engine.Budget(q, th))
 	sched("R4-cancel-retry", 1, p3, r4, b, engine.Budget(q, th))
